@@ -1,4 +1,5 @@
 import CacheProofs.Lemmas.Janitor
+import CacheModel.DriverBackend
 
 /-
   C12 — eviction fires only on limit breach, removes the right amount, in strategy order.
@@ -161,6 +162,29 @@ theorem C12_metric_tracks_history (kind : Kind) (cfg : Cfg) (s : Store) (hw : s.
       intro c'; unfold Store.get; simp [hek]
     split <;> exact key _
   · intro v E b; rw [get_writeCore]; simp
+
+/-- **C12_oracle_is_the_model** — the literal trigger / amount the correspondence run judges observed cycles with
+    (`Drv.specShouldEvict`, `Drv.specAmount`: the property's wording) is the model's plan for the decision kernels read off
+    the source: with the unchanged kernels the oracle can neither alarm on a cycle the model allows nor miss one it forbids. -/
+theorem C12_oracle_is_the_model (cfg : Cfg) (n : Nat) (env : CleanupEnv) :
+    (evictPlan cfg n env).isSome = Drv.specShouldEvict cfg n env ∧
+    evictAmount cfg n (countOverflow cfg n) = Drv.specAmount cfg n := by
+  have hco : countOverflow cfg n = Drv.specCountOver cfg n := by
+    unfold countOverflow Drv.specCountOver Gen.countOverflowOff Gen.countOver
+    by_cases h : cfg.countSoftLimit = 0
+    · simp [h]
+    · have : ¬ ((cfg.countSoftLimit : Int) = 0) := by omega
+      simp [h, this]
+  constructor
+  · unfold evictPlan Drv.specShouldEvict Gen.evictTrigger
+    rw [hco]
+    cases h : (env.ho || env.so || Drv.specCountOver cfg n || (env.hasNeeded && env.needed)) <;> simp [h]
+  · unfold evictAmount Drv.specAmount Gen.fracIsDefault Gen.defaultEvictFracN Gen.defaultEvictFracD
+    rw [hco]
+    by_cases h : cfg.efn = 0
+    · simp [h]
+    · have : ¬ ((cfg.efn : Int) = 0) := by omega
+      simp [h, this]
 
 /-! ### Non-vacuity -/
 example : let cfg : Cfg := { ttl := -1, jn := -1, jd := 1, strategy := .lfu, deleteExpiredAfter := 100, countSoftLimit := 10, efn := 1, efd := 4 }
